@@ -375,6 +375,60 @@ def run(ctx):
     ctx.exhaustive[R] = True
 
     # ------------------------------------------------------------------
+    R = "C06.o_to_p"
+    ctx.rule(R, "Ordered._to_gfa1_a writes, for every captured edge, the "
+             "overlap of the link the path goes through: the edge's GFA1 "
+             "overlap when the edge is traversed forwards (e+), its "
+             "complement when it is traversed backwards (e-), so that the P "
+             "line names the same links as the O line", floor=4)
+    Oc = repo.cls("line.group.Ordered")
+    OLc = repo.cls("OrientedLine")
+    S2c = repo.cls("line.segment.GFA2")
+    E2c = repo.cls("line.edge.GFA2")
+    f_o1 = ctx.anchor("Ordered._to_gfa1_a", Oc.find_method("_to_gfa1_a"))
+    for orients in itertools.product("+-", repeat=2):
+        ctx.instance(R)
+
+        class OH(OvHooks):
+            def before_inline(self, ev, func, args, kwargs):
+                if func.name == "_validate_gfa_field":
+                    return None
+                if func.name == "field_to_s":
+                    return "<tag>"
+                return NotImplemented
+
+            def to_str(self, ev, v):
+                if self.is_ov(v):
+                    return v.label[3:]
+                if isinstance(v, Abs) and v.cls is OLc:
+                    return "%s%s" % (v.attrs["name"], v.attrs["orient"])
+                return super().to_str(ev, v)
+        oh = OH(repo)
+        segsl = [Abs(OLc, label="ol", name=n, orient="+",
+                     line=Abs(S2c, label="s:" + n, name=n)) for n in "abc"]
+        edges = [Abs(OLc, label="oe%d" % i, orient=o, name="e%d" % i,
+                     line=Abs(E2c, label="e%d" % i,
+                              overlap=oh.ov("X%d" % i)))
+                 for i, o in enumerate(orients)]
+        grp = Abs(Oc, label="group", name="p", captured_segments=segsl,
+                  captured_edges=edges, tagnames=[])
+        try:
+            out = eval_function(repo, f_o1, [grp], hooks=oh)
+        except Unsupported as e:
+            raise AnalysisError(str(e))
+        want = ",".join("X%d%s" % (i, "'" if o == "-" else "")
+                        for i, o in enumerate(orients))
+        ok = out[0] == "return" and isinstance(out[1], list) and \
+            len(out[1]) >= 4 and out[1][:3] == ["P", "p", "a+,b+,c+"] and \
+            out[1][3] == want
+        ctx.oblige(ok)
+        if not ok:
+            ctx.violation(R, f_o1.short, "edges traversed %s" % "".join(
+                orients), "writes %r, expected the overlaps %r (X' is the "
+                "complement of X)" % (out[1], want))
+    ctx.exhaustive[R] = True
+
+    # ------------------------------------------------------------------
     R = "C06.comment_conversion"
     ctx.rule(R, "a comment has the same text in both versions: the string "
              "conversions of a comment line (to_gfa1_s / to_gfa2_s, used by "
